@@ -30,6 +30,8 @@ pub struct BigUint {
 //@ end
 //@ include prelude/biguint_view.rs
 //@ include prelude/highbits.rs
+//@ include prelude/rne.rs
+//@ include prelude/floatsem.rs
 pub open spec fn p2(k: nat) -> nat { pow2(k) }
 impl vstd::std_specs::convert::FromSpecImpl<u64> for BigUint {
     open spec fn obeys_from_spec() -> bool { false }
@@ -171,8 +173,8 @@ impl BigInt {
 //+{
         requires self.wfi()
         ensures r is Some, ({
-            let m = if fexp(self.mag().dg()) > 1024 { finf64() } else { fmul64(fcast64(fmant(self.mag().dg())), fpow2_64(fexp(self.mag().dg()) as i32)) };
-            r.unwrap() == (if self.iv() < 0 { fneg64(m) } else { m })
+            let y = rne_sig(self.mag().v(), 53, blen(self.mag().dg()));
+            if y < pow2(1024) { r.unwrap().finite() && r.unwrap().integral() && r.unwrap().ival() == (if self.iv() < 0 { -(y as int) } else { y as int }) } else { !r.unwrap().finite() }
         }),
 //+}
     {
@@ -180,6 +182,9 @@ impl BigInt {
         proof { lemma_sgn_mul(self.sign, self.data.v()); }
 //+}
         let n = self.data.to_f64()?;
+//+{
+        proof { axiom_fneg64(n); }
+//+}
         Some(if self.sign == Minus { n.negf() } else { n })
     }
 //@ end
@@ -189,8 +194,8 @@ impl BigInt {
 //+{
         requires self.wfi()
         ensures r is Some, ({
-            let m = if fexp(self.mag().dg()) > 128 { finf32() } else { fmul32(fcast32(fmant(self.mag().dg())), fpow2_32(fexp(self.mag().dg()) as i32)) };
-            r.unwrap() == (if self.iv() < 0 { fneg32(m) } else { m })
+            let y = rne_sig(self.mag().v(), 24, blen(self.mag().dg()));
+            if y < pow2(128) { r.unwrap().finite() && r.unwrap().integral() && r.unwrap().ival() == (if self.iv() < 0 { -(y as int) } else { y as int }) } else { !r.unwrap().finite() }
         }),
 //+}
     {
@@ -198,6 +203,9 @@ impl BigInt {
         proof { lemma_sgn_mul(self.sign, self.data.v()); }
 //+}
         let n = self.data.to_f32()?;
+//+{
+        proof { axiom_fneg32(n); }
+//+}
         Some(if self.sign == Minus { n.negf() } else { n })
     }
 //@ end
